@@ -676,6 +676,7 @@ def lexer_slices(ctx):
                     ctx.inst("R14.8", "%s:writes-%s#%d" % (path.split("::")[-1], fld, others), ok, x.get("sp"),
                              "%s writes the lexer's `%s` with `%s`, which is not a value saved from the same field: the distance invariant of the state machine is computed from Lexer::next alone" % (path, fld, show(x["r"])[:60]))
     ctx.floor("R14.8", "token slices in Lexer::next", len(sites), 6)
+    ctx.floor("R14.8", "token slices whose state has a computed entry distance", len([s_ for s_ in sites if s_["have"] is not None]), 6)
 
 
 def _restores(r, fld, g):
